@@ -378,7 +378,7 @@ func (x *Exec) callUnknownFuncValue(fr *Frame, pc *preparedCall, st *State, k fu
 
 // pureExternal lists dependency packages whose functions do not touch modelled heap.
 func pureExternal(name string) bool {
-	for _, p := range []string{"strings.", "strconv.", "fmt.", "errors.", "time.", "unicode", "math", "bytes.", "path.", "path/filepath.", "encoding/hex.", "encoding/base64.", "net.Split", "net.ParseIP", "net/http.CanonicalHeaderKey", "net/http.ParseTime", "net/http.StatusText", "slices.", "cmp.", "log/slog.", "crypto/", "golang.org/x/crypto/", "reservoir/utils/typeutils.", "reservoir/metrics.", "net/url.", "maps.", "encoding/json.Marshal", "os.", "io.", "sort.", "reflect.", "bufio.", "net.Conn.", "net/http.Response.Write", "context."} {
+	for _, p := range []string{"strings.", "strconv.", "fmt.", "errors.", "time.", "unicode", "math", "bytes.", "path.", "path/filepath.", "encoding/hex.", "encoding/base64.", "net.Split", "net.ParseIP", "net/http.CanonicalHeaderKey", "net/http.ParseTime", "net/http.StatusText", "slices.", "cmp.", "log/slog.", "crypto/", "golang.org/x/crypto/", "reservoir/utils/typeutils.", "reservoir/metrics.", "net/url.", "maps.", "encoding/json.Marshal", "os.", "io.", "sort.", "reflect.", "bufio.", "net.Conn.", "github.com/shirou/gopsutil/", "net/http.Response.Write", "context."} {
 		if strings.HasPrefix(name, p) {
 			return true
 		}
@@ -891,6 +891,33 @@ func (x *Exec) applyAssigns(fr *Frame, st *State, fc *FuncContract, env *SpecEnv
 			st.lazyHavoc = append(st.lazyHavoc, lazyHavocRec{pat: pat, tag: x.fresh("lh"), newOnly: true, alloc: st.alloc})
 			continue
 		}
+		if strings.HasPrefix(a, "@") && env != nil {
+			// "@param": exactly the object the pointer parameter denotes - the heap arrays of its
+			// own prefix (for a pointer to a field of an enclosing struct: that field's arrays), at its address
+			pv, ok := env.vars[a[1:]].(PtrV)
+			if !ok {
+				panic(x.unsupported("assigns " + a + ": not a pointer parameter"))
+			}
+			if pv.LV != nil {
+				// a pointer to a local or to a field reached through an l-value: exactly that value
+				pv.LV.Store(x, st, x.freshValue(st, x.resolveType(pv.Elem), "assigned"))
+				continue
+			}
+			if pv.Prefix == "" {
+				panic(x.unsupported("assigns " + a + ": pointer without heap prefix"))
+			}
+			for _, key := range st.heapKeys() {
+				if key == pv.Prefix || strings.HasPrefix(key, pv.Prefix+".") {
+					old := st.heap[key]
+					nw := Var(x.fresh("Ho_"+sanitize(key)), old.Sort)
+					q := x.qvar("qo")
+					st.assumeRaw(Forall([]*Term{q}, Implies(Ne(q, pv.Addr), Eq(Select(nw, q), Select(old, q)))))
+					st.heap[key] = nw
+				}
+			}
+			st.lazyHavoc = append(st.lazyHavoc, lazyHavocRec{pat: pv.Prefix + ".", tag: x.fresh("lh"), only: pv.Addr, prefixOnly: true})
+			continue
+		}
 		if i := strings.Index(a, "@"); i > 0 && env != nil {
 			// only the object a parameter points to is written
 			pat, pname := a[:i], a[i+1:]
@@ -1384,6 +1411,22 @@ func (x *Exec) checkCalleeFrame(fr *Frame, st *State, fc *FuncContract, name str
 			continue
 		}
 		covered := false
+		if strings.HasPrefix(a, "@") {
+			if pv, ok := env.vars[a[1:]].(PtrV); ok && !top.Pure {
+				for _, b := range top.Assigns {
+					if strings.HasPrefix(b, "ghost:") || b == "nothing" || strings.HasPrefix(b, "new:") || strings.Contains(b, "@") {
+						continue
+					}
+					if strings.Contains(pv.Prefix, b) {
+						covered = true
+					}
+				}
+			}
+			if !covered {
+				x.oblige(fr, st, "calleeframe", fmt.Sprintf("callee %s assigns %s@%s", name, a, x.siteLabel(n)), TFalse, n)
+			}
+			continue
+		}
 		if i := strings.Index(a, "@"); i > 0 && !top.Pure {
 			// callee writes one object only: covered by a type-level pattern of the caller, by a
 			// one-object pattern of the caller naming the same object, or - when the caller may
